@@ -50,6 +50,14 @@ fn spiced(mut frame: Vec<u8>) -> Vec<u8> {
                 frame[p.start + 12] = (frame[p.start + 12] & 0xf0) | (salt >> 4);
             }
         }
+        // an IPv6 header whose version nibble is not 6 (the dispatch goes by EtherType / protocol, not by the nibble):
+        // the nibble lies outside every other field and must survive every assignment
+        if p.layer == Layer::Ipv6 && frame.len() > p.start + 39 {
+            let salt = frame[p.start + 7] ^ frame[p.start + 39];
+            if salt & 3 == 1 {
+                frame[p.start] = (frame[p.start] & 0x0f) | (salt & 0xf0);
+            }
+        }
     }
     frame
 }
